@@ -11,9 +11,15 @@ import (
 
 // Barn is bound by name.
 type Barn struct {
-	Name, Size, Cows, Best, Next interface{}
+	*SizeBase
+	Name, Cows, Best, Next interface{}
 	// unexported twins of two exported fields (names that differ in case only): reflection binds the exported ones
 	name, size interface{} //nolint
+}
+
+// SizeBase is embedded in Barn BY POINTER: Size is a promoted field reached through a pointer.
+type SizeBase struct {
+	Size interface{}
 }
 
 // MilkBase is embedded in Cow: Milk is a promoted field, one level below the unexported twin Cow.milk.
